@@ -3,7 +3,8 @@
 Small-scope enumeration of match statements:
   * F1  one-case statements for EVERY pattern of the grammar to depth 2: leaves (int, -int, float, complex, str, bytes,
         None/True/False literals, capture, wildcard, dotted value patterns Color.RED / NSK.K / NSK.S) and every
-        sequence form ([], [p], [p, q], [p, *rest], [*rest, p], [*_, p], [p, *_, q], [p, *rest, q], (p, q)), mapping form
+        sequence form ([], [p], [p, q], [p, *rest], [*rest, p], [*_, p], [p, *_, q], [p, *rest, q], (p, q), and a star capture
+        preceded by 0..2 and followed by 2..3 captures, also nested in a mapping), mapping form
         ({}, {'k': p}, {'k': p, **rest}, {1: _, 'a': p}, {'k': p, 'j': q}, {NSK.S: p}), class form (Point(), Point(x=p),
         Point(x=p, y=q), Point(p), Point(p, q), Point(p, y=q), too many positionals, positional+keyword clash, int(p),
         int(), str(), str(p), float(p), dict(), list(), DP(p, q) dataclass, __match_args__ of wrong type (list / non-str),
@@ -104,8 +105,25 @@ def patterns_posargs_plus_keyword():
     return out
 
 
+def patterns_star_then_several():
+    """A star CAPTURE followed by 2 and 3 further sub-patterns, preceded by 0..2 (the slice bounds of the star target), as
+    list and tuple patterns and nested in a mapping pattern."""
+    out = []
+    for before in ((), ('a',), ('a', 'b')):
+        for after in (('y', 'z'), ('y', 'z', 'w')):
+            names = before + ('rest',) + after
+            inner = ', '.join(before + ('*rest',) + after)
+            out.append(('[%s]' % inner, names))
+            out.append(('(%s)' % inner, names))
+    out.append(("{'k': [*rest, y, z]}", ('rest', 'y', 'z')))
+    out.append(("{'k': (a, *rest, y, z, w)}", ('a', 'rest', 'y', 'z', 'w')))
+    out.append(('[*rest, 0, z]', ('rest', 'z')))
+    out.append(('[a, *rest, y, 1]', ('a', 'rest', 'y')))
+    return out
+
+
 def patterns_depth2():
-    out = list(LEAVES) + list(FIXED) + patterns_posargs_plus_keyword()
+    out = list(LEAVES) + list(FIXED) + patterns_posargs_plus_keyword() + patterns_star_then_several()
     for fmt, ex in SEQ1 + MAP1 + CLS1:
         for p in subs('x'):
             out.append(_combine(fmt, p, extra=ex))
@@ -220,8 +238,8 @@ def family(tier):
 
 
 _SCLASS = {'num': 'i0 i1 im1 big T F f15 f0 c12 isub', 'none': 'N', 'str': 'sab se ssub', 'bytes': 'bab ba',
-           'list': 'l0 l1 l2 l3 lab lnest', 'tuple': 't0 t1 t2 tn', 'otherseq': 'dq rng arr', 'abcseq': 'myseq virtseq',
-           'notseq': 'notseq', 'dict': 'd0 dk dkj d1a dab od dd', 'abcmap': 'mymap', 'matchargs': 'ma1 ma2 ma3'}
+           'list': 'l0 l1 l2 l3 l4 l5 l7 lab lnest', 'tuple': 't0 t1 t2 t3 t4 t6 tn', 'otherseq': 'dq rng rng5 arr',
+           'abcseq': 'myseq myseq5 virtseq', 'notseq': 'notseq', 'dict': 'd0 dk dkj dkl d1a dab od dd', 'abcmap': 'mymap', 'matchargs': 'ma1 ma2 ma3'}
 _SUBJECT_CLASS = {k: c for c, ks in _SCLASS.items() for k in ks.split()}
 
 
